@@ -96,9 +96,10 @@ class GenChart:
         return " ".join(str(t) for t in toks)
 
     # ---- real handlers -----------------------------------------------------------
-    def build(self, log, spied=False, name_prefix="s", counter=None, effects=None):
+    def build(self, log, spied=False, name_prefix="s", counter=None, effects=None, after=None):
         """hand-written style handlers; `log` receives (id, kind) per invocation.
-        effects: optional callable (chart, i, kind, e) run inside the handler (posts, scribbles…)."""
+        effects: optional callable (chart, i, kind, e) run inside the handler (posts, scribbles…) before it decides;
+        after: optional callable (chart, i, kind, e, status) run after it has decided (after chart.trans(...))."""
         fns = {}
         ch = self
 
@@ -151,6 +152,9 @@ class GenChart:
                         return None
                 else:
                     status, chart.temp.fun = return_status.SUPER, par
+                    return status
+                if after is not None:
+                    after(chart, i, kind, e, status)
                 return status
             st.__name__ = "%s%d" % (name_prefix, i)
             st.__qualname__ = st.__name__
